@@ -64,6 +64,7 @@ def run_case(tape, tier):
             hops.append(dict(status=tape.pick("rstatus", [301, 302, 303, 307]),
                              target=tape.pick("rtarget", ["rel", "abs-same", "abs-other", "rel", "abs-same", "abs-other", "noloc", "badloc"] if not tls
                                               else ["rel", "abs-same", "rel", "abs-same", "noloc", "badloc"])))
+            hops[-1]["query"] = tape.flag("loc_query", 1, 3)     # Location carries a query string
             if hops[-1]["target"] in STUCK:
                 break      # a redirect that cannot be followed ends the chain: the 3xx itself is the answer
         spec = dict(i=i, method=method, body=body, hops=hops, delay=tape.pick("delay", [0, 0, 1, 3, 8]),
@@ -90,6 +91,7 @@ def run_case(tape, tier):
     raised = []
     log = []          # ('req', mid, hop, peer) / ('done', mid, hop)
     inflight = {}     # (mid, hop) -> True while the response is not completely handed to the kernel
+    where = {}        # (mid, hop) -> port of the peer that request arrived at
 
     with netlab.Lab(tape, res, wirelog=False, tls=tls, rates=dict(short=tape.pick("r_short", [0, 4, 10]), partial=tape.pick("r_partial", [0, 4]))) as lab:
         net = lab.net
@@ -110,6 +112,8 @@ def run_case(tape, tier):
             if hop < len(r["hops"]):
                 h = r["hops"][hop]
                 path = "/m%d/h%d" % (r["i"], hop + 1)
+                if h.get("query"):
+                    path += "?hop=%d&x=ab" % (hop + 1)
                 if h["target"] == "noloc":
                     return ("HTTP/1.1 %d Redirect\r\nContent-Length: 0\r\n\r\n" % h["status"]).encode(), False
                 if h["target"] == "badloc":
@@ -149,13 +153,34 @@ def run_case(tape, tier):
                 need = int(ml.group(1)) if ml else 0
                 if len(c["rx"]) < m.end() + need:
                     break
+                reqbody = bytes(c["rx"][m.end():m.end() + need])
                 del c["rx"][:m.end() + need]
-                mp = re.match(rb"(\w+) /m(\d+)(?:/h(\d+))?", head)
+                mp = re.match(rb"(\w+) /m(\d+)(?:/h(\d+))?(\?\S*)? HTTP", head)
                 if not mp:
                     violation.append(("peer-got-garbage", "peer received an unparsable request head %r" % head[:60]))
                     continue
                 mid = int(mp.group(2))
                 hop = int(mp.group(3) or 0)
+                wire_method = mp.group(1).decode()
+                wire_query = (mp.group(4) or b"").decode()
+                if mid < len(reqs):
+                    rq = reqs[mid]
+                    if hop == 0 and (wire_method != rq["method"] or reqbody != rq["body"]):
+                        violation.append(("wrong-request-on-wire", "request %d was queued as %s with body %r but went out as %s with body %r" % (
+                            mid, rq["method"], rq["body"], wire_method, reqbody)))
+                    if 0 < hop <= len(rq["hops"]):
+                        prev = rq["hops"][hop - 1]
+                        wantq = ("?hop=%d&x=ab" % hop) if prev.get("query") else ""
+                        if prev["target"] not in STUCK and wire_query != wantq:
+                            violation.append(("redirect-wrong-target", "request %d hop %d: Location carried query %r, the request went out "
+                                              "with %r" % (mid, hop, wantq, wire_query)))
+                        prev_port = where.get((mid, hop - 1))
+                        if prev_port is not None and prev["target"] in ("rel", "abs-same", "abs-other"):
+                            want_port = prev_port if prev["target"] != "abs-other" else (PORT_B if prev_port != PORT_B else lab.port)
+                            if port != want_port:
+                                violation.append(("redirect-wrong-target", "request %d hop %d: Location (%s) pointed at port %d, the request "
+                                                  "arrived at port %d" % (mid, hop, prev["target"], want_port, port)))
+                    where[(mid, hop)] = port
                 busy = [k for k, v in inflight.items() if v]
                 log.append(("req", mid, hop, port))
                 if busy:
